@@ -74,6 +74,7 @@ type Verifier struct {
 	frameOn bool
 	modset []modLoc
 	curTop *ssa.Function
+	frameGuard *Term
 }
 
 func (v *Verifier) note(s string) { v.notes[s]++ }
@@ -304,7 +305,7 @@ func (v *Verifier) load(st *State, addr *Term, t types.Type) *Term {
 	if r.Op == "select" {
 		v.addTypeFacts(st, r, t)
 		if r.Sort == "Iface" && fromEntryHeap(r) && !mentionsBound(r) {
-			st.assume(tNot(mk("Bool", "zz_isnew", mk("Ptr", v.D.unboxFn("Ptr"), r))))
+			st.assume(tNotFresh(mk("Ptr", v.D.unboxFn("Ptr"), r)))
 		}
 	}
 	return r
@@ -438,7 +439,26 @@ func fromEntryHeap(t *Term) bool {
 	for a.Op == "store" {
 		a = a.Args[0]
 	}
-	return strings.HasPrefix(a.Op, "zz_h0_")
+	return strings.HasPrefix(a.Op, "zz_h0_") && entryRooted(t.Args[1])
+}
+
+// entryRooted: the address is built only from parameters, globals and values read from the entry heap
+// (so it denotes a location that existed when the verified function was entered).
+func entryRooted(a *Term) bool {
+	for a.Op == "zz_fld" || a.Op == "zz_elem" {
+		a = a.Args[0]
+	}
+	switch {
+	case a.Op == "zz_glob":
+		return true
+	case len(a.Args) == 0:
+		return strings.HasPrefix(a.Op, "zz_p_") || strings.HasPrefix(a.Op, "zz_fv_")
+	case a.Op == "select":
+		return fromEntryHeap(a)
+	case strings.HasPrefix(a.Op, "zz_unbox_") || a.Op == "zz_sl_base":
+		return entryRooted(a.Args[0]) || fromEntryHeap(a.Args[0])
+	}
+	return false
 }
 
 func mentionsBound(t *Term) bool {
@@ -459,10 +479,10 @@ func (v *Verifier) addTypeFacts(st *State, t *Term, ty types.Type) {
 	}
 	// A4: pointers found in the entry heap do not point into objects allocated later by this function
 	if t.Sort == "Ptr" && fromEntryHeap(t) {
-		st.assume(tNot(mk("Bool", "zz_isnew", t)))
+		st.assume(tNotFresh(t))
 	}
 	if t.Sort == "Slice" && fromEntryHeap(t) {
-		st.assume(tNot(mk("Bool", "zz_isnew", slBase(t))))
+		st.assume(tNotFresh(slBase(t)))
 	}
 	for _, f := range v.typeFacts(t, ty) {
 		k := f.String()
